@@ -603,6 +603,48 @@ pub fn registry_scenario_strategy(p: &Profile, cfgs: BoxedStrategy<Cfg>) -> Boxe
         .boxed()
 }
 
+/// Structured generator: 3-5 registered validators, bonds, heavy slashing of one or two validators (uneven layout),
+/// optionally liquid coins on the hub (donation or a matured undelegation), then bonds of pool-relative sizes.
+pub fn uneven_bond_scenario_strategy(cfgs: BoxedStrategy<Cfg>) -> BoxedStrategy<History> {
+    (
+        cfgs,
+        3u8..=5,
+        proptest::collection::vec((0u8..6, any::<bool>(), amt_strategy()), 2..5),
+        proptest::collection::vec((0u8..5, prop_oneof![Just(500u16), Just(300u16), 50u16..500]), 1..4),
+        proptest::option::weighted(0.6, amt_strategy()),
+        any::<bool>(),
+        proptest::collection::vec((0u8..6, any::<bool>(), prop_oneof![3 => (Just(6u8), any::<u32>()), 1 => (Just(7u8), any::<u32>()), 2 => (0u8..6, any::<u32>())]), 1..6),
+    )
+        .prop_map(|(mut cfg, n, bonds, slashes, donate, unbond_cycle, later)| {
+            cfg.n_vals = n;
+            cfg.n_reg = n;
+            let mut ops = vec![];
+            for (u, st, amt) in bonds {
+                ops.push(Op::Bond { u, st, amt });
+            }
+            if unbond_cycle {
+                // a matured, not yet withdrawn undelegation leaves liquid coins on the hub
+                ops.push(Op::Unbond { u: 0, st: false, frac: 20000 });
+                ops.push(Op::Unbond { u: 0, st: true, frac: 20000 });
+                ops.push(Op::Advance { clock: Clock::Epoch(1) });
+                ops.push(Op::Unbond { u: 1, st: false, frac: 0 });
+                ops.push(Op::Unbond { u: 1, st: true, frac: 0 });
+                ops.push(Op::Advance { clock: Clock::Unbond(0) });
+            }
+            for (v, permille) in slashes {
+                ops.push(Op::Slash { v, permille, unbonding: false });
+            }
+            if let Some(amt) = donate {
+                ops.push(Op::Donate { to: 0, coin: 0, amt });
+            }
+            for (u, st, (class, mant)) in later {
+                ops.push(Op::Bond { u, st, amt: Amt { class, mant } });
+            }
+            History { cfg, ops }
+        })
+        .boxed()
+}
+
 /// Structured generator: bonds of both tokens, then reward rounds (rewards of several coins accrue on several
 /// validators, then UpdateGlobalIndex), interleaved with a few generated operations of the given profile.
 pub fn reward_scenario_strategy(p: &Profile, cfgs: BoxedStrategy<Cfg>) -> BoxedStrategy<History> {
